@@ -146,6 +146,59 @@ def agreesMasks (p g : MaskIndex) : Bool :=
     | none => false) &&
   (g.all fun e => (findMask e.1 p).isSome) && maskTagsNodup p && maskTagsNodup g && p.length == g.length
 
+/-! ### the pin as a LOWER bound: everything pinned is still live (a legitimate extension adds entries) -/
+
+/-- `p` is a subsequence of `g`: the linear-time case of "every pair of `p` is in `g`" (both tables are
+    emitted in the same canonical order, so an extension only INSERTS entries). -/
+def subSeq : Table → Table → Bool
+  | [], _ => true
+  | _ :: _, [] => false
+  | p :: s, q :: t => if p.1 == q.1 && p.2 == q.2 then subSeq s t else subSeq (p :: s) t
+
+/-- every pair of the pinned table is in the live table (whatever the order; `subSeq` is the fast path). -/
+def covers (p g : Table) : Bool := subSeq p g || subTable p g
+
+/-- `p` is a prefix of `l` (flag positions of a mask: new flags may only be appended). -/
+def natPrefix : List Nat → List Nat → Bool
+  | [], _ => true
+  | a :: s, b :: t => a == b && natPrefix s t
+  | _ :: _, [] => false
+
+/-- every pinned enumeration entry is live: each pinned `value ↦ name` and `name ↦ value` pair is in the
+    live table of the same tag (a missing live table reads as empty). The live side may have more values
+    and more enumerations. -/
+def coversEnums (p g : EnumIndex) : Bool :=
+  p.all fun e => covers e.2.1 (enumByValue g e.1) && covers e.2.2 (enumByName g e.1)
+
+/-- every pinned mask flag is live at the same bit position with the same name; the live mask may have
+    more flags after them. -/
+def coversMasks (p g : MaskIndex) : Bool :=
+  p.all fun e => natPrefix e.2.1 (maskNames g e.1) && covers e.2.2 (maskByName g e.1)
+
+/-- pinned ⊆ live, for the whole registry: tags (both maps), enumerations, masks, and the Go-type ↦ tag
+    maps of the enumeration and mask types (`ttlv.enums`, `ttlv.bitmasks`). -/
+def coversRegistry (pT gT pN gN : Table) (pE gE : EnumIndex) (pM gM : MaskIndex)
+    (pET gET pMT gMT : Table) : Bool :=
+  covers pT gT && covers pN gN && coversEnums pE gE && coversMasks pM gM &&
+  covers pET gET && covers pMT gMT
+
+/-- live = pinned exactly (INFORMATION ONLY: false as soon as the library registers anything new). -/
+def equalsRegistry (pT gT pN gN : Table) (pE gE : EnumIndex) (pM gM : MaskIndex)
+    (pET gET pMT gMT : Table) : Bool :=
+  agrees pT gT && agrees pN gN && agreesEnums [] pE gE && agreesMasks pM gM &&
+  agrees pET gET && agrees pMT gMT
+
+/-! ### Go type ↦ tag maps (`ttlv.enums`, `ttlv.bitmasks`, `ttlv.tagByType`): WHICH table a typed value uses -/
+
+/-- `types` (`ttlv.enums` or `ttlv.bitmasks`: packed Go type string ↦ tag) is a function and is injective;
+    every type has the SAME tag as its default tag in `typeTags` (`ttlv.tagByType`, what
+    `getTagForType` answers and the codecs pass as `realtag`); that tag is a registered, non-zero tag;
+    and every table tag of `tabTags` (the enumerations / masks that have a table) belongs to a type. -/
+def typesWF (types typeTags tagNames : Table) (tabTags : List Nat) : Bool :=
+  keysNodup types && valsNodup types && keysNodup typeTags &&
+  (types.all fun p => optIs (lookup p.1 typeTags) p.2 && hasKey p.2 tagNames && decide (0 < p.2)) &&
+  (tabTags.all fun t => hasVal t types)
+
 /-- tags of the enumerations whose tables differ between the two indexes (for reporting). -/
 def differingEnums (p g : EnumIndex) : List Nat :=
   (p.filter fun e => match findEnum e.1 g with
@@ -406,5 +459,37 @@ def cleanName (n : Nat) : Bool :=
 
 /-- all names of a number ↦ name table are clean. -/
 def cleanNames (byNum : Table) : Bool := byNum.all fun p => cleanName p.2
+
+/-! ## typed values: the table is chosen by the Go TYPE, not by the element tag -/
+
+/-- `getTagForType(ty)` as used by `buildEnumEncodeFunc` / `buildEnumDecodeFunc` (and the mask ones), which
+    ignore its error: the entry of `tagByType`, else 0. (The fall-back of `getTagForType` on
+    `tagByName[ty.Name()]` is not modelled: it is unreachable for a type registered by `RegisterEnum` /
+    `RegisterBitmask`, which always fill `tagByType` — see `typesWF`.) -/
+def typeTag (typeTags : Table) (ty : Nat) : Nat := (lookup ty typeTags).getD 0
+
+/-- the tag whose table the XML / JSON / text writers and readers use for an item written under element
+    tag `elem` by a codec passing `realtag`: `if realtag <= 0 { realtag = tag }`. -/
+def effTag (realtag elem : Nat) : Nat := if realtag == 0 then elem else realtag
+
+/-- what `Encoder.TagAny(elem, T(v))` — hence any struct field, attribute value or list element of the
+    enumeration type `ty` — writes as value in the XML, JSON and text forms. -/
+def typedEnumToText (typeTags : Table) (enums : EnumIndex) (ty elem v : Nat) : List Nat :=
+  enumToText (enumByValue enums (effTag (typeTag typeTags ty) elem)) v
+
+/-- what `Decoder.TagAny(elem, *T)` reads from a string value (XML, JSON). -/
+def typedEnumFromText (typeTags : Table) (enums : EnumIndex) (ty elem : Nat) (s : List Nat) : Option Nat :=
+  enumFromTextReader (enumByName enums (effTag (typeTag typeTags ty) elem)) s
+
+/-- the same for a bit-mask type: `Encoder.TagAny(elem, T(v))` with the writer's separator … -/
+def typedMaskToText (typeTags : Table) (masks : MaskIndex) (ty elem : Nat) (sep : List Nat) (v : Nat) :
+    List Nat :=
+  maskToText (maskNames masks (effTag (typeTag typeTags ty) elem)) sep v
+
+/-- … and `Decoder.TagAny(elem, *T)` on the XML / JSON string value. -/
+def typedMaskFromXml (typeTags : Table) (masks : MaskIndex) (ty elem : Nat) (s : List Nat) : Option Nat :=
+  maskFromTextXml (maskByName masks (effTag (typeTag typeTags ty) elem)) s
+def typedMaskFromJson (typeTags : Table) (masks : MaskIndex) (ty elem : Nat) (s : List Nat) : Option Nat :=
+  maskFromTextJson (maskByName masks (effTag (typeTag typeTags ty) elem)) s
 
 end Kmip.Reg
